@@ -37,6 +37,7 @@ func main() {
 	extractStages()
 	extractExtractors()
 	extractHtml()
+	extractContainment()
 	extractArchiver()
 	extractPipeline()
 
